@@ -243,8 +243,11 @@ fn alloc_aligned_custom_u8(size: usize, align: usize) -> Vec<u8> {
         0,
         "size={size} must be a multiple of align={align}"
     );
+    // The global allocator must not be asked for zero bytes (`GlobalAlloc::alloc`: undefined behaviour).
+    // An empty buffer still gets one aligned block, so that its pointer keeps the requested alignment.
+    let capacity: usize = size.max(align);
     unsafe {
-        let layout: std::alloc::Layout = std::alloc::Layout::from_size_align(size, align).expect("Invalid alignment");
+        let layout: std::alloc::Layout = std::alloc::Layout::from_size_align(capacity, align).expect("Invalid alignment");
         let ptr: *mut u8 = std::alloc::alloc(layout);
         if ptr.is_null() {
             panic!("Memory allocation failed");
@@ -255,7 +258,7 @@ fn alloc_aligned_custom_u8(size: usize, align: usize) -> Vec<u8> {
         );
         // Init allocated memory to zero
         std::ptr::write_bytes(ptr, 0, size);
-        Vec::from_raw_parts(ptr, size, size)
+        Vec::from_raw_parts(ptr, size, capacity)
     }
 }
 
